@@ -111,4 +111,11 @@ theorem comp_time_exists (n size r : Nat) (hr : r < n * size) :
     rw [Nat.mul_comm] at this
     omega
 
+theorem stateIndex_eq (I : Inst) (m j c i : Nat) (b : Blk) (hb : (stateBlocks I)[j]? = some b) :
+    stateIndex I m j c i
+      = ctrlSize I + m * memberSize I + offsetOf (stateBlocks I) j + (c * b.n + i) := by
+  unfold stateIndex
+  simp [List.getD, hb]
+
+
 end RtcVerif.C05
